@@ -33,6 +33,8 @@ pub enum Act {
     Withdraw { vault: String, lp_token: String, lp: Uint128 },
     CollectFees { vault: String },
     UpdateConfigAttempt { vault: String },
+    /// flip the vault's switches (only works when this contract owns the vault)
+    OwnerToggle { vault: String, flash_loan_enabled: Option<bool>, deposit_enabled: Option<bool>, withdraw_enabled: Option<bool> },
     /// take another loan (same or other vault); `script` runs in its callback
     Loan { vault: String, amount: Uint128, script: Vec<Step> },
     /// send an asset to some address (e.g. the router, to let it repay)
@@ -144,6 +146,19 @@ fn act_msgs(deps: Deps, env: &Env, act: &Act) -> StdResult<Vec<CosmosMsg>> {
                 new_owner: Some(env.contract.address.to_string()),
                 new_vault_fees: None,
                 new_fee_collector_addr: Some(env.contract.address.to_string()),
+            }))?,
+            funds: vec![],
+        }
+        .into()],
+        Act::OwnerToggle { vault, flash_loan_enabled, deposit_enabled, withdraw_enabled } => vec![WasmMsg::Execute {
+            contract_addr: vault.clone(),
+            msg: to_json_binary(&VaultExec::UpdateConfig(white_whale_std::vault_network::vault::UpdateConfigParams {
+                flash_loan_enabled: *flash_loan_enabled,
+                deposit_enabled: *deposit_enabled,
+                withdraw_enabled: *withdraw_enabled,
+                new_owner: None,
+                new_vault_fees: None,
+                new_fee_collector_addr: None,
             }))?,
             funds: vec![],
         }
